@@ -148,15 +148,12 @@ def r05_7(ck: Check) -> None:
     require_return(ck, "R05.7", s, Spec(s, ("summary", "h")), "scrypt(summary.serialize(), h.to_bytes(8, byteorder='big'))",
                    "scrypt over the complete serialized summary, salted with the height")
     s = ck.summ(CONS + "construct_pow_evidence_after_scrypt", 0)
-    sample = ("(b'\\x00' * 32) if h == 0 else select_n_k_length_slices_from_chain(sh, h, get_block_by_height, 8, 4)")
+    sample = ("(b'\\x00' * 32) if h == 0 else select_n_k_length_slices_from_chain(sh, h, "
+              "lambda k: cs.block_by_height_by_hash[summary.previous_block_hash][k], 8, 4)")
     require_return(ck, "R05.7", s, Spec(s, ("sh", "cs", "summary", "h", "txs")),
                    "PowEvidence(summary_hash=sh, chain_sample=%s, block_hash=blake2(sh + (%s) + serialize_list(txs)))" % (sample, sample),
-                   "chain sample of 8x4 bytes selected by the summary hash (zeros only at height 0); blake2 over summary hash, sample and the FULL serialized list")
-    q = CONS + "construct_pow_evidence_after_scrypt.get_block_by_height"
-    s = ck.summ(q, 0)
-    sp = Spec(s, ("k",), extra={"cs": ("v", "coinstate"), "summary": ("v", "summary")})
-    require_return(ck, "R05.7", s, sp, "cs.block_by_height_by_hash[summary.previous_block_hash][k]",
-                   "sampled blocks are the candidate's OWN ancestors (index of its parent), not the active chain")
+                   "chain sample of 8x4 bytes selected by the summary hash (zeros only at height 0) from the candidate's OWN ancestors (index of its "
+                   "parent, not the active chain); blake2 over summary hash, sample and the FULL serialized list")
     # pow.py
     s = ck.summ("skepticoin.pow.select_block_height", 0)
     require_return(ck, "R05.7", s, Spec(s, ("hsh", "h")), "int.from_bytes(hsh[:8], byteorder='big') % h", "height = first 8 bytes mod height")
